@@ -75,19 +75,27 @@ verus! {
 //@struct LRC LRContext
 //@end
 
+impl<'i, I: Input + ?Sized, S, TK> LRContext<'i, I, S, TK> {
+    pub closed spec fn f_state(&self) -> S { self.state }
+    pub closed spec fn f_position(&self) -> Position { self.position }
+    pub closed spec fn f_span(&self) -> SourceSpan { self.span }
+    pub closed spec fn f_layout_ahead(&self) -> Option<&'i I> { self.layout_ahead }
+    pub closed spec fn f_token_ahead(&self) -> Option<Token<'i, I, TK>> { self.token_ahead }
+}
+
 //@impl LRC /^impl < I : Input \+ \? Sized , S : Default , TK > LRContext < '_ , I , S , TK >/
 //@  fn new ret=r
-//@  |         ensures r.v_position() == position, r.v_span().start == position, r.v_span().end == position, // [C13]
-//@  |             r.v_layout_ahead() is None, r.v_token_ahead() is None,
+//@  |         ensures r.f_position() == position, r.f_span().start == position, r.f_span().end == position, // [C13]
+//@  |             r.f_layout_ahead() is None, r.f_token_ahead() is None,
 //@end
 
 //@impl LRC /^impl < 'i , I , S , TK > Context < 'i , I , S , TK > for LRContext < 'i , I , S , TK >/
 //@  raw
-//@  |     closed spec fn v_state(&self) -> S { self.state }
-//@  |     closed spec fn v_position(&self) -> Position { self.position }
-//@  |     closed spec fn v_span(&self) -> SourceSpan { self.span }
-//@  |     closed spec fn v_layout_ahead(&self) -> Option<&'i I> { self.layout_ahead }
-//@  |     closed spec fn v_token_ahead(&self) -> Option<Token<'i, I, TK>> { self.token_ahead }
+//@  |     open spec fn v_state(&self) -> S { self.f_state() }
+//@  |     open spec fn v_position(&self) -> Position { self.f_position() }
+//@  |     open spec fn v_span(&self) -> SourceSpan { self.f_span() }
+//@  |     open spec fn v_layout_ahead(&self) -> Option<&'i I> { self.f_layout_ahead() }
+//@  |     open spec fn v_token_ahead(&self) -> Option<Token<'i, I, TK>> { self.f_token_ahead() }
 //@  fn state
 //@  fn set_state
 //@  fn position
